@@ -68,6 +68,9 @@ if __name__=='__main__':
         names=sorted(n for n in os.listdir(SEEDED) if os.path.exists(meta_path(n)))
         missed=[]
         for n in names:
+            if load(n).get('obsolete_after'):
+                print(f"{n:34s} skipped: obsolete after {load(n)['obsolete_after'][:60]}...")
+                continue
             o=run(n,tier)
             if not any(v['caught'] for v in o.values()): missed.append(n)
         print('missed:',missed)
